@@ -114,6 +114,14 @@ type childResult struct {
 func (r *Run) RunChild(label, bin string, args ...string) {
 	out := filepath.Join(os.Getenv("VERIF_TMP"), fmt.Sprintf("child-%s-%d.json", label, time.Now().UnixNano()))
 	a := append([]string{"-tier", r.Tier, "-child-out", out, "-workers", fmt.Sprint(r.Workers)}, args...)
+	if !r.Deadline.IsZero() {
+		// the child shares the parent's soft budget (it always gets a few minutes of its own)
+		left := time.Until(r.Deadline)
+		if left < 5*time.Minute {
+			left = 5 * time.Minute
+		}
+		a = append(a, "-budget", left.Round(time.Second).String())
+	}
 	cmd := exec.Command(bin, a...)
 	cmd.Stderr = os.Stderr
 	cmd.Stdout = os.Stderr
